@@ -48,6 +48,9 @@ ASSUMPTIONS = ["fault points are enumerated completely per base scenario; base s
 BUDGETS = {"quick": (4500, 90), "thorough": (300000, 285)}
 SHRINK_CAP = 200
 CANCELS = ["KeyboardInterrupt", "SystemExit", "CancelledError"]
+# application classes that inherit from a cancellation type AND from Exception (e.g. "RequestCancelled"): still
+# cancellation-type exceptions
+HYBRIDS = ["HybridCancelled", "HybridInterrupt", "HybridExit"]
 FORBIDDEN_AFTER_ABORT = ("OP_BEGIN", "SLEEP_BEGIN", "HANDLER", "BEFORE_SLEEP")
 FORBIDDEN_AFTER_CANCEL = ("OP_BEGIN", "SLEEP_BEGIN", "HANDLER", "BEFORE_SLEEP", "CLASSIFY", "RCLASSIFY", "STRATEGY", "BUDGET")
 
@@ -207,14 +210,14 @@ def execute(scn):
             a = v["calls"][0]["attempts"]
             while len(a) < n:
                 a.append(copy.deepcopy(a[-1]))
-            a[n - 1] = {"kind": "abort", "dur": a[n - 1].get("dur", 0)}
+            a[n - 1] = {"kind": "abort", "dur": a[n - 1].get("dur", 0), "alias": (n + scn["seed"]) % 2 == 0}   # raised via either public name
         tag = f"op_abort@attempt={n}"
         cf, env = variant(mut, tag)
         check_polls(scn, cf, viol, ent, tag)
         check_abort(scn, cf, viol, ent, tag)
     # (c) cancellation-type exceptions from attempts and sleeps
     for n in range(1, n_att + 1):
-        for x in CANCELS:
+        for x in CANCELS + [HYBRIDS[(n + scn["seed"]) % 3]]:
             def mut(v, n=n, x=x):
                 a = v["calls"][0]["attempts"]
                 while len(a) < n:
